@@ -16,28 +16,28 @@ func convertHasExpression(stmt *gripql.HasExpression, not bool) bson.M {
 		cond := stmt.GetCondition()
 		switch cond.Condition {
 		case gripql.Condition_INSIDE:
-			val := cond.Value.AsInterface()
-			lims, ok := val.([]interface{})
+			lims, ok := rangeLimits(cond)
 			if !ok {
 				log.Error("unable to cast values from INSIDE statement")
+				output = matchNone(not)
 			} else {
 				output = convertHasExpression(gripql.And(gripql.Gt(cond.Key, lims[0]), gripql.Lt(cond.Key, lims[1])), not)
 			}
 
 		case gripql.Condition_OUTSIDE:
-			val := cond.Value.AsInterface()
-			lims, ok := val.([]interface{})
+			lims, ok := rangeLimits(cond)
 			if !ok {
 				log.Error("unable to cast values from OUTSIDE statement")
+				output = matchNone(not)
 			} else {
 				output = convertHasExpression(gripql.Or(gripql.Lt(cond.Key, lims[0]), gripql.Gt(cond.Key, lims[1])), not)
 			}
 
 		case gripql.Condition_BETWEEN:
-			val := cond.Value.AsInterface()
-			lims, ok := val.([]interface{})
+			lims, ok := rangeLimits(cond)
 			if !ok {
 				log.Error("unable to cast values from BETWEEN statement")
+				output = matchNone(not)
 			} else {
 				output = convertHasExpression(gripql.And(gripql.Gte(cond.Key, lims[0]), gripql.Lt(cond.Key, lims[1])), not)
 			}
@@ -77,6 +77,22 @@ func convertHasExpression(stmt *gripql.HasExpression, not bool) bson.M {
 	}
 
 	return output
+}
+
+// rangeLimits returns the two bounds of an INSIDE/OUTSIDE/BETWEEN condition; like the core
+// engine, anything but a list of exactly two values is not a range
+func rangeLimits(cond *gripql.HasCondition) ([]interface{}, bool) {
+	lims, ok := cond.Value.AsInterface().([]interface{})
+	return lims, ok && len(lims) == 2
+}
+
+// matchNone is the filter for a condition that holds for no element (every document has an
+// _id); negated, it holds for every element
+func matchNone(not bool) bson.M {
+	if not {
+		return bson.M{}
+	}
+	return bson.M{"_id": bson.M{"$exists": false}}
 }
 
 func convertPath(key string) string {
